@@ -241,3 +241,145 @@ def wrunQuitReturn : WDeb → List WAct → Option WDeb
 def WDeb.released (d : WDeb) (w : Nat) : Prop := w ∈ d.served ∨ w ∈ d.shut
 
 end Pool
+
+/-! ### policyConnPool (connectionpool.go): the pool registry of ONE host id under concurrent callers
+
+```go
+func (p *policyConnPool) addHost(host *HostInfo) {
+    hostID := host.HostID()
+    p.mu.Lock()
+    pool, ok := p.hostConnPools[hostID]                                   // lookup
+    if !ok { pool = newHostConnPool(p.session, host, host.Port(), …)      // create
+             p.hostConnPools[hostID] = pool }                             // store
+    p.mu.Unlock()
+    pool.fill() }
+func (p *policyConnPool) removeHost(hostID string) { p.mu.Lock(); pool, ok := …; if !ok { unlock; return }
+    delete(p.hostConnPools, hostID); p.mu.Unlock(); go pool.Close() }
+func (p *policyConnPool) Close() { p.mu.Lock(); defer p.mu.Unlock(); for addr, pool := range … { delete; pool.Close() } }
+```
+Any number of callers (UP event, ring refresh startPoolFill, reconnect ticker, controlConn.setupConn; DOWN event, ring
+refresh removeHost; Session.Close) at once. The mutex discipline of the code that exists is built into the state: `crit`
+is the one caller inside policyConnPool.mu, every other caller is outside (waiting for the mutex, or past its unlock with
+`pool.fill()` / `go pool.Close()` still to run). Pool objects are numbered in the order of their creation. -/
+namespace Reg
+
+inductive Crit where
+  | addIn                       -- addHost: took the mutex
+  | addLooked (hit : Option Nat) -- … looked the host up
+  | addCreated (i : Nat)        -- … missed and built pool i (newHostConnPool returned), not stored yet
+  | addStored (i : Nat)         -- … stored it
+  | rmIn                        -- removeHost: took the mutex
+  | rmMiss                      -- … no pool registered
+  | rmDeleted (i : Nat)         -- … deleted the entry of pool i
+  | clIn                        -- policyConnPool.Close: took the mutex
+  | clDone                      -- … deleted every entry and closed every pool
+deriving DecidableEq, Repr
+
+structure St where
+  reg : Option Nat          -- hostConnPools[hostID]
+  pools : List Bool         -- closed flag of every hostConnPool object ever built for the host
+  crit : Option Crit        -- the caller inside policyConnPool.mu (none: the mutex is free)
+  addWait : Nat             -- addHost callers that have not taken the mutex yet
+  rmWait : Nat
+  clWait : Nat
+  toFill : List Nat         -- addHost callers past the unlock: pool.fill() still to be called on pool i
+  toClose : List Nat        -- removeHost callers past the unlock: `go pool.Close()` still to run on pool i
+  filled : List Nat         -- ghost: the pools fill() has been called on
+  missed : Nat              -- split-lock variant only: callers that missed under the read lock and are building a pool
+  made : List Nat           -- split-lock variant only: callers that built pool i and have not stored it yet
+deriving DecidableEq, Repr
+
+def St.init (registered : Bool) : St :=
+  { reg := if registered then some 0 else none, pools := if registered then [false] else [], crit := none,
+    addWait := 0, rmWait := 0, clWait := 0, toFill := [], toClose := [], filled := [], missed := 0, made := [] }
+
+inductive Act where
+  | callAdd | callRemove | callClose          -- a new caller arrives
+  | addLock | addLookup | addCreate | addStore | addUnlock
+  | fill (i : Nat)                            -- pool.fill() of an addHost caller past its unlock
+  | rmLock | rmLookup | rmUnlock
+  | close (i : Nat)                           -- `go pool.Close()` of a removeHost caller runs
+  | clLock | clSweep | clUnlock
+  -- the split-lock variant of addHost (lookup under the read lock; create unlocked; store under the write lock, no re-check)
+  | sLookup | sMake | sStore (i : Nat)
+deriving DecidableEq, Repr
+
+def setClosed : List Bool → Nat → List Bool
+  | [], _ => []
+  | _ :: bs, 0 => true :: bs
+  | b :: bs, n + 1 => b :: setClosed bs n
+
+/-- the code that exists -/
+def step (s : St) : Act → Option St
+  | .callAdd => some { s with addWait := s.addWait + 1 }
+  | .callRemove => some { s with rmWait := s.rmWait + 1 }
+  | .callClose => some { s with clWait := s.clWait + 1 }
+  | .addLock => if s.crit = none ∧ 0 < s.addWait then some { s with crit := some .addIn, addWait := s.addWait - 1 } else none
+  | .addLookup => if s.crit = some .addIn then some { s with crit := some (.addLooked s.reg) } else none
+  | .addCreate =>
+      if s.crit = some (.addLooked none) then some { s with crit := some (.addCreated s.pools.length), pools := s.pools ++ [false] }
+      else none
+  | .addStore => match s.crit with
+      | some (.addCreated i) => some { s with crit := some (.addStored i), reg := some i }
+      | _ => none
+  | .addUnlock => match s.crit with
+      | some (.addLooked (some i)) => some { s with crit := none, toFill := s.toFill ++ [i] }
+      | some (.addStored i) => some { s with crit := none, toFill := s.toFill ++ [i] }
+      | _ => none
+  | .fill i => if i ∈ s.toFill then some { s with toFill := s.toFill.erase i, filled := s.filled ++ [i] } else none
+  | .rmLock => if s.crit = none ∧ 0 < s.rmWait then some { s with crit := some .rmIn, rmWait := s.rmWait - 1 } else none
+  | .rmLookup =>
+      if s.crit = some .rmIn then
+        match s.reg with
+        | none => some { s with crit := some .rmMiss }
+        | some i => some { s with crit := some (.rmDeleted i), reg := none }
+      else none
+  | .rmUnlock => match s.crit with
+      | some .rmMiss => some { s with crit := none }
+      | some (.rmDeleted i) => some { s with crit := none, toClose := s.toClose ++ [i] }
+      | _ => none
+  | .close i => if i ∈ s.toClose then some { s with toClose := s.toClose.erase i, pools := setClosed s.pools i } else none
+  | .clLock => if s.crit = none ∧ 0 < s.clWait then some { s with crit := some .clIn, clWait := s.clWait - 1 } else none
+  | .clSweep =>
+      if s.crit = some .clIn then
+        match s.reg with
+        | none => some { s with crit := some .clDone }
+        | some i => some { s with crit := some .clDone, reg := none, pools := setClosed s.pools i }
+      else none
+  | .clUnlock => if s.crit = some .clDone then some { s with crit := none } else none
+  | .sLookup => none
+  | .sMake => none
+  | .sStore _ => none
+
+def run : St → List Act → Option St
+  | s, [] => some s
+  | s, a :: as => match step s a with
+    | some s' => run s' as
+    | none => none
+
+/-- the seeded family: addHost looks the pool up under the READ lock (any number of callers at once, none while a
+    writer is inside), builds the pool unlocked and stores it under the write lock without looking again -/
+def stepSplit (s : St) : Act → Option St
+  | .addLock => none | .addLookup => none | .addCreate => none | .addStore => none | .addUnlock => none
+  | .sLookup =>
+      if s.crit = none ∧ 0 < s.addWait then
+        match s.reg with
+        | some i => some { s with addWait := s.addWait - 1, toFill := s.toFill ++ [i] }
+        | none => some { s with addWait := s.addWait - 1, missed := s.missed + 1 }
+      else none
+  | .sMake => if 0 < s.missed then some { s with missed := s.missed - 1, made := s.made ++ [s.pools.length], pools := s.pools ++ [false] } else none
+  | .sStore i =>
+      if s.crit = none ∧ i ∈ s.made then some { s with made := s.made.erase i, reg := some i, toFill := s.toFill ++ [i] } else none
+  | a => step s a
+
+def runSplit : St → List Act → Option St
+  | s, [] => some s
+  | s, a :: as => match stepSplit s a with
+    | some s' => runSplit s' as
+    | none => none
+
+/-- pool i has been built, is not closed, and nobody is committed to closing it -/
+def St.live (s : St) (i : Nat) : Prop :=
+  s.pools[i]? = some false ∧ s.crit ≠ some (.rmDeleted i) ∧ i ∉ s.toClose
+
+end Reg
